@@ -18,14 +18,24 @@ from c04 import (TYPES, system, make, of_var, to_var, stacked, eq_ref, ineq_ref,
 from quara.settings import Settings
 
 LEAN_EXTRA_SOURCES = ("C04.lean", "C04Psd.lean", "C04Ineq.lean", "Psd.lean")
+LEAN_EXTRA_TARGETS = ("QGen.C05", "QGen.C04")
 PARTIAL = [
-    {"theorem": "dyk_* (all)", "missing": "convergence of the iteration (Boyle–Dykstra) and hence termination below any eps > 0 and "
-     "eps-accuracy of the stopped iterate are NOT proved; proved are the sweep invariant, that a vanishing stopping value is a fixed "
-     "point, that a fixed point is the nearest point of the intersection (hence order independence of fixed points), that a physical "
-     "input is returned after two sweeps, and history consistency of the loop as coded"},
+    {"theorem": "dyk_* (all)", "missing": "that the stopped iterate is within a stated distance of the NEAREST physical point (strong "
+     "convergence of Dykstra's sequence) is not proved; proved are: sweep invariant, potential decrease by the stopping value, "
+     "boundedness and summability, termination of the loop as coded by its criterion within n+1 sweeps when n*eps > |x0-z|^2, the "
+     "min(first stop, max_iteration) rule, returned point physical up to sqrt(eps), vanishing stopping value = fixed point, fixed "
+     "point = nearest point of the intersection (order independent), physical input returned after two sweeps, history consistency"},
 ]
 EPSS = [1e-14, 1e-12, 1e-10, 1e-8, 1e-6]
 ORDERS = ("eq_ineq", "ineq_eq")
+
+
+def translate(ctx):
+    """regenerate lean/QGen/C05.lean (sweep bodies, stopping value, guard, comparison) from /repo's qoperation.py"""
+    import c04_translate
+    import c05_translate
+    # QProps.C05 imports QProps.C04, whose `gen_*` theorems are about QGen.C04: regenerate both from the same tree
+    return (c04_translate.translate() or []) + (c05_translate.translate() or [])
 
 
 def is_phys_ref(typ, kind, m, x):
@@ -380,8 +390,12 @@ def check_start(ctx, g, typ, kind, m, x0, flag, eps, cls, max_iter, ncomp):
     for suffix, hflag, kw, phys, orders in variants:
         for order in orders:
             if phys:
-                holder = make(typ, c, rand_physical(np.random.default_rng(7), typ, kind, m), hflag, is_physicality_required=True,
-                              eps_proj_physical=eps, mode_proj_order=order)
+                try:
+                    holder = make(typ, c, rand_physical(np.random.default_rng(7), typ, kind, m), hflag, is_physicality_required=True,
+                                  eps_proj_physical=eps, mode_proj_order=order)
+                except Exception as e:  # noqa
+                    ctx.violate(f"C05/{typ}/physical-host/raises", f"a physical {typ} (independent reference) is rejected by the "
+                                f"constructor: {type(e).__name__}: {str(e)[:120]}", dict(rep0, level="host", order=order)); continue
             else:
                 holder = make(typ, c, start, hflag, eps_proj_physical=eps, mode_proj_order=order)
             for nm in ("func_calc_proj_physical", "func_calc_proj_physical_with_var"):
